@@ -131,6 +131,8 @@ package middleware
 
 // ------------------------------------------------------------------ C13: readiness
 //@ func readynessCheck$1
+//@ prop C13 C17
+//@ at call ServeHTTP assert[next-gets-request-and-writer-unchanged] recv(ServeHTTP) == next && arg(ServeHTTP, 0) == rw && arg(ServeHTTP, 1) == req
 //@ prop C13
 //@ at call WriteHeader assert[ready-only-if-store-reachable] arg(WriteHeader, 0) == 200 ==> ret(VerifyConnection) == nil
 //@ ensures[unreachable-store-is-500] called(VerifyConnection) && ret(VerifyConnection) != nil ==> called(WriteHeader#0)
@@ -143,6 +145,8 @@ package middleware
 //@ at call AddRequestScope assert[fresh-scope-no-session-mode-from-option] arg(AddRequestScope, 1).Session == nil
 //@     && arg(AddRequestScope, 1).ReverseProxy == reverseProxy && arg(AddRequestScope, 0) == req
 //@ at call ServeHTTP assert[next-gets-the-scoped-request] arg(ServeHTTP, 1) == ret(AddRequestScope)
+//@ prop C17
+//@ at call ServeHTTP assert[next-gets-the-writer-unchanged] recv(ServeHTTP) == next && arg(ServeHTTP, 0) == rw
 
 //@ func genRequestID
 //@ nomod
@@ -150,3 +154,35 @@ package middleware
 // the loader is wired with exactly the store, period, refresher and validator it was given
 //@ prop C01 C12
 //@ scan[stored-loader-fields-written-only-by-its-constructor] field-writers storedSessionLoader.* pkg/middleware.NewStoredSessionLoader
+
+// ------------------------------------------------------------------ C17: middleware hands the request and the response on unchanged
+//@ func requestLogger$1
+//@ prop C17
+//@ at call ServeHTTP assert[next-gets-the-request-and-the-wrapped-client-writer] recv(ServeHTTP) == next && arg(ServeHTTP, 1) == req
+//@     && arg(ServeHTTP, 0) == responseLogger && responseLogger.ResponseWriter == rw
+//@ ensures[always-passes-on] called(ServeHTTP)
+
+//@ func (*loggingResponse).WriteHeader
+//@ prop C17
+//@ ensures[status-relayed-unchanged] called(WriteHeader) && arg(WriteHeader, 0) == s && recv(WriteHeader) == old(r.ResponseWriter)
+
+//@ func (*loggingResponse).Write
+//@ prop C17
+//@ ensures[body-relayed-unchanged] called(Write) && arg(Write, 0) == b && recv(Write) == old(r.ResponseWriter) && ret0 == ret0(Write) && ret1 == ret1(Write)
+
+//@ func (*loggingResponse).Flush
+//@ prop C17
+//@ ensures[flush-relayed-when-supported] called(Flush) ==> recv(Flush) == old(r.ResponseWriter)
+
+//@ func (*loggingResponse).Hijack
+//@ prop C17
+//@ ensures[hijack-relayed-when-supported] called(Hijack) ==> recv(Hijack) == old(r.ResponseWriter) && ret0 == ret0(Hijack) && ret1 == ret1(Hijack) && ret2 == ret2(Hijack)
+
+//@ func healthCheck$1
+//@ prop C17
+//@ at call ServeHTTP assert[next-gets-request-and-writer-unchanged] recv(ServeHTTP) == next && arg(ServeHTTP, 0) == rw && arg(ServeHTTP, 1) == req
+//@ ensures[everything-but-health-checks-passes-on] called(ServeHTTP) <==> !ret(isHealthCheckRequest)
+
+//@ func redirectToHTTPS$1
+//@ prop C17
+//@ at call ServeHTTP assert[next-gets-request-and-writer-unchanged] recv(ServeHTTP) == next && arg(ServeHTTP, 0) == rw && arg(ServeHTTP, 1) == req
